@@ -27,13 +27,4 @@ class Driver(ChanDriver):
         ]
 
     def fingerprint(self, case):
-        """A confirm wait aborted by a queued error (the publish raised
-        AMQPMessageError) followed by a later publish on the same channel."""
-        m = case['meta']
-        res = m.get('results') or []
-        for i, (st, r) in enumerate(zip(m['steps'], res)):
-            if st[1][0] == 'publish' and 'EMsg' in r:
-                if any(s2[0] == st[0] and s2[1][0] == 'publish'
-                       for s2 in m['steps'][i + 1:]):
-                    return 'confirm-aborted+late-ack'
         return None
